@@ -55,6 +55,8 @@ KINDS = {
     "memref.subview": "subview",
     "memref.dim": "dim",
     "memref.copy": "copy",
+    "memref.extract_strided_metadata": "metadata",
+    "memref.extract_aligned_pointer_as_index": "ptr",
     "snax.cluster_sync_op": "barrier",
     "snax.layout_cast": "viewcast",
     "memref.memory_space_cast": "viewcast",
